@@ -45,22 +45,6 @@ func (s SchemaSchema) Steps() map[string]Step {
 	return result
 }
 
-func (s SchemaSchema) applyNamespace() {
-	for _, step := range s.StepsValue {
-		// We can apply an empty scope because the scope does not need another scope.
-		step.InputValue.ApplySelf()
-		for _, output := range step.OutputsValue {
-			output.Schema().ApplySelf()
-		}
-		for _, signal := range step.SignalHandlersValue {
-			signal.DataSchema().ApplySelf()
-		}
-		for _, signal := range step.SignalEmittersValue {
-			signal.DataSchema().ApplySelf()
-		}
-	}
-}
-
 func NewCallableSchema(
 	steps ...CallableStep,
 ) *CallableSchema {
